@@ -17,7 +17,11 @@ EXPLANATION = (
     "resolved and in a reasoned harmless set, indexed reads are dominated by non-emptiness guards; R9 in the walk loop the "
     "step to the parent is taken exactly for '..', the child lookup exactly for components other than '..', '' and '.', "
     "nothing else replaces the current node, and every path of such a component performs its step before the next "
-    "component is taken. Not decided: which child a name selects (string computation on runtime names)."
+    "component is taken. R5 relaxed dead ends return the None/empty sentinel; R6 node names reach every comparison str-typed; "
+    "R7/R8 the path is split exactly once on the node's own separator and get/glob walk that component list unmodified; "
+    "R10 error-message templates are constants filled only with %-arguments (no runtime value in template position); "
+    "R11 the path attribute value is never tested for truth; R12 the root component is compared through the comparator "
+    "handed in by get (equality) resp. glob (pattern match). Not decided: which child a name selects (string computation on runtime names)."
 )
 ASSUMPTIONS = [
     "self.relax is constant during a call (checked: assigned only in __init__)",
